@@ -328,7 +328,8 @@ CONFIG = {
                 " The goroutine-leak oracles of the Exclusive, context-combinator, Workers, Worker, ExponentialRetry and LinearAttempt engines (see C09/C10, C16, C14, C17, C18, C20) "
                 "are run under this property as well: after every handle is closed / context cancelled / call returned, the bubble must hold no other goroutine. "
                 "conslin (see C02) runs with a concurrent Close of the shared consumer: Close must return (once nothing is uncommitted), Done closed, Diff unregistered; a wedged program is a violation.",
-        "jobs": [buffree("C12", 12000, 600000), bufstep("C12", 24000, 800000), chanstep("C12", 12000, 400000), waitcond("C12", 8000, 300000),
+        "jobs": [{"name": "closerace", "test": "TestBufCloseRace", "checks": {"quick": 800, "thorough": 80000}, "shards": {"quick": 8, "thorough": 16}, "stall_sig": "C12/stall"},
+                 buffree("C12", 12000, 600000), bufstep("C12", 24000, 800000), chanstep("C12", 12000, 400000), waitcond("C12", 8000, 300000),
                  {"name": "conslin_close", "test": "TestConsLin", "checks": {"quick": 24000, "thorough": 800000}, "shards": {"quick": 4, "thorough": 8},
                   "env": {"VKIT_PROFILE": "C12"}, "stall_sig": "C12/stall"},
                  # the goroutine-leak oracles of the engines written for the other goroutine-starting APIs
